@@ -27,7 +27,7 @@ ASSUMPTIONS = [
     "a worker process that dies (segfault) is reported as a violation of the case it was executing",
 ]
 
-VARIANTS = ["native", "swapped", "strided", "negstride", "f4", "i8", "0d", "2d", "readonly"]
+VARIANTS = ["native", "swapped", "strided", "negstride", "swapped-strided", "swapped-negstride", "f4", "i8", "0d", "2d", "readonly"]
 
 
 def make_variant(a, variant):
@@ -43,6 +43,17 @@ def make_variant(a, variant):
         if a.dtype.itemsize > 1 and a.dtype.kind in "iufc":
             return a.astype(a.dtype.newbyteorder("S"))
         return None
+    if variant in ("swapped-strided", "swapped-negstride"):
+        # both at once: a non-native AND non-contiguous view (two conversion steps in the callee)
+        sw = make_variant(a, "swapped")
+        if sw is None or sw.ndim < 1 or sw.shape[0] < 2:
+            return None
+        if variant == "swapped-strided":
+            big = np.zeros((sw.shape[0] * 2,) + sw.shape[1:], dtype=sw.dtype)
+            big.view("u1")[...] = 0xA5
+            big[::2] = sw
+            return big[::2]
+        return sw[::-1].copy()[::-1]
     if variant == "strided":
         if a.ndim < 1:
             return None
@@ -286,6 +297,7 @@ def main(ctx):
     spec("integrate.QGauss.integrate(data)", dict(x=np.array([0.0, 1.0, 3.0, 4.0]), y=np.array([1.0, 2.0, 0.0, 1.0])),
          lambda x, y: integrate.QGauss(5).integrate(x, y))
 
+    STRUCTURAL_EXTRA = []
     # ------------------------------------------------ option lattices (full products)
     # For every function below ALL combinations of its boolean / enumerated keyword options are
     # registered (a hand-picked option set misses e.g. the one branch `units='rad', stomp=True` that
@@ -324,7 +336,7 @@ def main(ctx):
     ospec("coords.sphdist", C.sphdist, dict(a=ura, b=udec, c=ura2, d=udec2),
           dict(units=[["deg", "deg"], ["rad", "rad"], ["deg", "rad"], ["rad", "deg"]]))
     for nm in ("shiftlon", "shiftra"):
-        ospec("coords." + nm, getattr(C, nm), dict(a=ra), dict(shift=[None, 0.0, 10.0, -10.0, 350.0], wrap=BO))
+        ospec("coords." + nm, getattr(C, nm), dict(a=ra), dict(shift=[None, 0.0, 10.0, -10.0, 350.0, 10.000000000000002, 199.99999999999997], wrap=BO))
     ospec("coords.rotate", lambda a, b, ang: C.rotate(ang[0], ang[1], ang[2], a, b), dict(a=ra, b=dec),
           dict(ang=[(0.0, 0.0, 0.0), (10.0, 0.0, 30.0), (10.0, 20.0, 30.0), (0.0, 90.0, 0.0), (0.0, 180.0, 5.0)]))
     ospec("coords.radec2aitoff", C.radec2aitoff, dict(a=ra, b=dec), dict())
@@ -410,6 +422,20 @@ def main(ctx):
           dict(a=ra, b=dec, c=ra2, d=dec2, r=rad), dict(maxmatch=[-1, 0, 1, 2]))
     ospec("htm.bincount", lambda a, b, c, d, **kw: hobj.bincount(0.1, 5.0, 3, a, b, c, d, **kw), dict(a=ra, b=dec, c=ra2, d=dec2),
           dict(scale=[None, 2.0], getbins=BO))
+    for with_rev in (False, True):
+        for with_mm in (False, True):
+            def bc(i, r=None, _mm=with_mm):
+                kw = dict(htmid2=i)
+                if r is not None:
+                    kw["htmrev2"] = r
+                if _mm:
+                    kw.update(minid=ids.min(), maxid=ids.max())
+                return hobj.bincount(0.1, 5.0, 3, ra, dec, ra2, dec2, **kw)
+            arrs = dict(i=ids, r=rev) if with_rev else dict(i=ids)
+            nm = "htm.bincount(supplied)[htmrev2=%s,minmax=%s]" % (with_rev, with_mm)
+            SPECS[nm] = (arrs, bc)
+            if with_rev:
+                STRUCTURAL_EXTRA.append((nm, "r"))
     ospec("htm.intersect-scalars", lambda inclusive: hobj.intersect(10.0, 20.0, 1.0, inclusive=inclusive), dict(), dict(inclusive=BO))
 
     # ---------------------------------------------------------------- runner
@@ -454,7 +480,7 @@ def main(ctx):
     # arguments that are index structures, not element-wise data: only variants that keep
     # them valid (1-d, complete) are meaningful; a truncated or reshaped reverse-index array
     # is a different (invalid) input, not a different memory layout of the same input
-    STRUCTURAL = {("htm.bincount(htmid2,htmrev2)", "r"), ("htm.bincount(htmid2,htmrev2,no minmax)", "r")}
+    STRUCTURAL = {("htm.bincount(htmid2,htmrev2)", "r"), ("htm.bincount(htmid2,htmrev2,no minmax)", "r")} | set(STRUCTURAL_EXTRA)
     units = []
     for sname, (arrays, fn) in SPECS.items():
         for variant in VARIANTS:
